@@ -30,6 +30,61 @@ def run(ctx):
     use_renames(ctx)
     scopes(ctx)
     c01.alias_reset(c01.ctx_alias(ctx, "R05.6"))
+    c01.index_capture(c01.ctx_alias(ctx, "R05.6"))
+    import cachewriters
+    cachewriters.check(ctx, "R05.7")
+    include_namespaces(ctx)
+
+
+def include_namespaces(ctx):
+    """R05.8 `include`: the included world's imports go to (and are checked for a clash against) the including world's
+    *imports*, its exports to the exports — the map iterated, the ExternKind handed to the conflict check, a map handed to it,
+    and the map inserted into all name the same namespace in each of the two loops."""
+    db, prov = ctx.db, ctx.prov
+    f = db.fn(RES + "AstResolver::world_include")
+    ctx.touch(f)
+    cfg = CFG(f)
+    calls = [t for t in f.calls() if (t.path or "").endswith("world_include::replace_name")]
+    ctx.ob("R05.8", "anchor", len(calls) == 2, "replace_name call sites in world_include: %d" % len(calls), nontrivial=False)
+    seen = set()
+    for c in calls:
+        h = loop_header_of(cfg, c.bb)
+        if h is None:
+            ctx.ob("R05.8", "include-loop@%s" % c.span.rsplit(":", 2)[-2], False, "replace_name is not called from an include loop", site=c.span)
+            continue
+        region = {b for b in cfg.reach_from(h) if cfg.reaches(b, h)}
+        nx = [t for t in f.calls() if t.bb in region and (t.path or "").endswith("::next")]
+        src = set()
+        for t in nx:
+            rs = prov.slice(f, t.args[0])
+            src |= {n for n, o, v in rs.fields if o.endswith("component::World") and n in ("imports", "exports")}
+        dst = set()
+        for t in f.calls():
+            if t.bb in region and (t.path or "").rsplit("::", 1)[-1] in ("entry", "insert") and "IndexMap" in (t.path or ""):
+                dst |= {n for n, o, v in narrow(prov, f, t.args[0]).fields if o.endswith("component::World") and n in ("imports", "exports")}
+        kinds = set()
+        handed = set()
+        for a in c.args:
+            sl = prov.slice(f, a)
+            kinds |= {v for adt, v in sl.aggs if (adt or "").endswith("component::ExternKind")}
+            if a.place is not None:
+                handed |= {n for n, o, v in narrow(prov, f, a).fields if o.endswith("component::World") and n in ("imports", "exports")}
+        # ExternKind constants are passed as operands: read the constant's variant
+        for a in c.args:
+            v = a.const_value()
+            if v and v[0] in ("int", "bits") and "ExternKind" in str(a.const):
+                kinds.add(db.variant_by_discr("wac_types::component::ExternKind", v[1]))
+        want = {"imports": "Import", "exports": "Export"}
+        key = "/".join(sorted(src)) or "?"
+        seen |= src
+        ok = len(src) == 1 and dst == src and (not handed or handed == src) and (not kinds or kinds == {want[next(iter(src))]})
+        ctx.ob("R05.8", "include-namespace|" + key, ok,
+               "included %s are checked against and added to the including world's %s" % (key, key) if ok else
+               "include loop over `%s`: inserted into %s, conflict check handed %s with kind %s — a clash is looked up in the wrong namespace (a WIT-valid include is rejected, or a real clash goes unreported)"
+               % (key, sorted(dst) or "?", sorted(handed) or "the world", sorted(k for k in kinds if k) or "?"),
+               site="%s in %s" % (c.span, f.id))
+    ctx.ob("R05.8", "both-namespaces", seen == {"imports", "exports"}, "include loops cover %s" % sorted(seen), nontrivial=False)
+
 
 
 def coverage(ctx):
